@@ -316,6 +316,22 @@ def handle (j : Json) : R Json := do
         ("floor", Json.arr (bits.map fun b => jn (F32.quantMag E M 0 b)).toArray),
         ("up", Json.arr (bits.map fun b => jn (F32.quantMag E M (2 ^ (23 - M) - 1) b)).toArray),
         ("core", Json.arr (bits.map fun b => jn (F32.countUpCore (23 - M) (23 - M - sb) (F32.preRound E M b))).toArray)])
+  | "hist" =>
+      let tag ← jstr j "tag"
+      let t ← match MupType.ofString? tag with
+        | some t => pure t | none => .error s!"bad tag {tag}"
+      let ops ← (← jarr j "ops").toList.mapM fun v => match v.getStr? with
+        | .ok s => match HOp.ofString? s with
+          | some o => pure o | none => .error s!"bad op {s}"
+        | .error e => .error e
+      let dts := fun (d : DType) => match d with | .f16 => "f16" | .f32 => "f32" | .f64 => "f64"
+      let st := fun (so : Option PState) => match so with
+        | none => Json.null
+        | some s => Json.mkObj [("tagged", Json.bool s.tagged), ("hooked", Json.bool s.hooked),
+        ("is_param", Json.bool s.isParam), ("dtype", Json.str (dts s.dtype)), ("prec", Json.str (dts s.prec)),
+        ("requires_grad", Json.bool s.requiresGrad),
+        ("depth", match s.depth with | none => Json.null | some d => jn d)]
+      pure (Json.mkObj [("trace", Json.arr ((traceHistory (initState t (← jonat j "depth")) ops).map st).toArray)])
   | "groups" => groupsCmd j
   | "zerostep" =>
       let lr ← jflt j "lr"; let wd ← jflt j "wd"; let p ← jflt j "p"
